@@ -254,6 +254,11 @@ def scenario_job(ctx, job) -> None:
             ctx.emit((pipeline.trace_of(res, proj), dict(cfg=c), dict(scenario=c, mode=mode, fault=fault)))
         if (fc or pre != "absent") and s == 0:
             ctx.sample(dict(scenario=c, mode=mode, fault=fault, real_projection=proj, model_allows=allowed_k))
+    except pipeline.PrepareRefused as exc:
+        # the clean, sequential creation of the prior catalog is itself a no-fault creation that must succeed
+        ctx.evaluated(1)
+        ctx.violation(f"C09|seq|no_fault|path_ok|raises_{type(exc.error).__name__}",
+                      dict(scenario="prior catalog: records (10,0) (12,0) (10.1,0.1), centres (10,0) (12,0), max_workers=1, one chunk", error=repr(exc.error)))
     finally:
         shutil.rmtree(root, ignore_errors=True)
 
